@@ -1,5 +1,6 @@
 import MdkVerif.Model.Client
 import MdkVerif.Proofs.Client
+import MdkVerif.Proofs.Insert
 /-
   C07 — Re-delivering an already handled event changes nothing.
   Statements are about `Model.Client.deliver` (= `process_message`), for EVERY client state, every
@@ -27,23 +28,8 @@ theorem dedup_blocks_forever (k nx : Nat) (c : Cl) (e : Ev) (r : Rec)
     rw [ih]
     exact dedup_blocks 3 nx c e r h hs
 
-/-- when is an event "already handled" past the dedup check, in terms of the client's own state -/
-def handledInner (c : Cl) (e : Ev) : Bool :=
-  match e.kind with
-  | .commit _ _ =>
-    -- an applied or superseded commit: it belongs to another epoch and does not beat what was applied
-    epochOf e.path != epochOf c.g.path && !isBetter c (epochOf e.path) e
-  | .leave => e.sender != c.id && c.g.consumed.contains e.cipher
-  | .app _ _ _ =>
-    (e.sender != c.id && c.g.consumed.contains e.cipher) ||
-    (e.sender == c.id && (match getRec c e.n with
-                          | some r => r.state == 1
-                          | none => false))
-
-def handled (c : Cl) (e : Ev) : Bool :=
-  (match getRec c e.n with
-   | some r => r.state == 3 || r.state == 4
-   | none => false) || (routes c e && handledInner c e)
+-- `handledInner` / `handled` / `known` (when is an event "already handled", in terms of the client's own state) are defined in
+-- Model/Handled.lean (executable: the driver evaluates them) so that Proofs/Insert.lean can speak about them
 
 theorem step1_handled (retry : Cl → Option (Cl × Res)) (nx : Nat) (c : Cl) (e : Ev)
     (hs : Synced c.g) (hg : routes c e = true) (hh : handledInner c e = true) :
@@ -69,14 +55,26 @@ theorem step1_handled (retry : Cl → Option (Cl × Res)) (nx : Nat) (c : Cl) (e
       rw [notBetterResult_proj _ e hs']
       simp
     | leave =>
-      simp only [hk, Bool.and_eq_true, bne_iff_ne, ne_eq] at hh
-      obtain ⟨hne, hc⟩ := hh
-      have h2 : (e.sender == c.id) = false := by simpa using hne
-      have hc' : e.cipher ∈ c.g.consumed := by simpa using hc
+      simp only [hk] at hh
       simp only
       split
       · simp [failUnprocessable]
-      · simp [h2, hc', failUnprocessable]
+      · rcases (Bool.or_eq_true _ _).mp hh with h1 | h1
+        · simp only [Bool.and_eq_true, bne_iff_ne, ne_eq] at h1
+          have h2 : (e.sender == c.id) = false := by simpa using h1.1
+          have hc' : e.cipher ∈ c.g.consumed := by simpa using h1.2
+          simp [h2, hc', failUnprocessable]
+        · simp only [Bool.and_eq_true, beq_iff_eq] at h1
+          have he : (e.sender == c.id) = true := by simpa using h1.1
+          simp only [withSecret_id, he, if_true]
+          unfold ownMessage
+          simp only [withSecret_getRec]
+          cases hr : getRec c e.n with
+          | none => simp [hr] at h1
+          | some r =>
+            have h1s : r.state = 2 := by simpa [hr] using h1.2
+            simp only [h1s]
+            exact (returnOwnCommit_proj _ hs').trans (proj_withSecret c)
     | app mid mts tok =>
       simp only [hk] at hh
       simp only
@@ -105,21 +103,30 @@ theorem step1_handled (retry : Cl → Option (Cl × Res)) (nx : Nat) (c : Cl) (e
 theorem redeliver_frame (fuel nx : Nat) (c : Cl) (e : Ev) (hs : Synced c.g) (hh : handled c e = true) :
     proj (deliverN fuel nx c e).1 = proj c := by
   unfold handled at hh
+  have key : ∀ retry, (routes c e = false ∨ handledInner c e = true) → proj (step1 retry nx c e).1 = proj c := by
+    intro retry h
+    by_cases hg : routes c e = true
+    · rcases h with h | h
+      · rw [hg] at h; cases h
+      · exact step1_handled retry nx c e hs hg h
+    · have hg' : routes c e = false := by simpa using hg
+      unfold step1
+      simp [hg']
   cases hr : getRec c e.n with
   | some r =>
     by_cases hb : (r.state == 3 || r.state == 4) = true
     · have : r.state = 3 ∨ r.state = 4 := by simpa using hb
       rw [dedup_blocks fuel nx c e r hr this]
     · have hb' : (r.state == 3 || r.state == 4) = false := by simpa using hb
-      simp only [hr, hb', Bool.false_or, Bool.and_eq_true] at hh
+      simp only [hr, hb', Bool.false_or, Bool.or_eq_true, Bool.not_eq_true'] at hh
       cases fuel <;> simp only [deliverN, deliverOnce, hr, hb', Bool.false_eq_true, if_false]
-      · exact step1_handled _ nx c e hs hh.1 hh.2
-      · exact step1_handled _ nx c e hs hh.1 hh.2
+      · exact key _ hh
+      · exact key _ hh
   | none =>
-    simp only [hr, Bool.false_or, Bool.and_eq_true] at hh
+    simp only [hr, Bool.false_or, Bool.or_eq_true, Bool.not_eq_true'] at hh
     cases fuel <;> simp only [deliverN, deliverOnce, hr]
-    · exact step1_handled _ nx c e hs hh.1 hh.2
-    · exact step1_handled _ nx c e hs hh.1 hh.2
+    · exact key _ hh
+    · exact key _ hh
 
 /-- a commit is never better than itself: the snapshot taken when `e` was applied does not make `e`
     a better candidate, so the applied commit's own re-delivery can never trigger a rollback -/
@@ -133,5 +140,198 @@ theorem not_better_than_own_snapshot (c : Cl) (e : Ev) (s : Snap) (ee : Nat)
   · split
     · omega
     · simp
+
+/-! ## histories: re-deliveries inserted anywhere, any number of times (Proofs/Insert.lean)
+
+  `redeliver_frame` is ONE call seen through `proj`.  The call may still touch what `proj` does not show — the exporter-secret
+  cache (`exporter_secret()` stores the current epoch's secret), the dedup record of the event (rewritten as Failed) — so it
+  does not by itself say that a LATER call is unaffected.  `Ins.Eqv` is the relation "equal up to exactly that"; every client
+  operation is a simulation for it (`Ins.sim_rstep`), a re-delivery of a handled event stays inside it (`Ins.ins_right`). -/
+section Histories
+open MdkVerif.Client.Ins
+open MdkVerif.Props.C08 (COp)
+
+/-- the invariants the theorems need hold of every client reachable by API calls from a created / joined group -/
+theorem invariants_reachable (id : Nat) (p : Bool) (r : Nat) (ms as : List Nat) (name : Nat) (ops : List COp) :
+    IInv (hist (initCl id p r ms as name) ops).1 := iinv_reachable id p r ms as name ops
+
+/-- … and they are preserved by every call, so they can be assumed of the start state of any history -/
+theorem invariants_preserved (c : Cl) (ops : List COp) (h : IInv c) : IInv (hist c ops).1 := iinv_hist c ops h
+
+/-- `hist` is the history of `C08.sync_inv` / `C11.run_is_history` (`C08.cstep` folded) with all results kept -/
+theorem hist_is_history (c : Cl) (ops : List COp) : (hist c ops).1 = ops.foldl MdkVerif.Props.C08.cstep c := hist_fst c ops
+
+/-- **C07 over histories, general form** — ANY client with the invariants, ANY list of operations (`IOp.orig`: deliveries of
+    arbitrary events, create_message, self-update / data update / add / remove, join, leave, merge / clear pending, restart) with
+    re-deliveries (`IOp.ins`) inserted at ANY places, of ANY events, ANY number of times.  Hypothesis `okIns`, decidable, on the
+    ORIGINAL run alone: each inserted event is `handled` and `known` (has a dedup record carrying an epoch, or a blocking one) at
+    the state where it is inserted, and each original delivery of an event number that was inserted earlier is of a `handled`
+    event.  Then the run with the insertions ends with the same projection — epoch, MLS state, members, data, pending proposals
+    and commit, record, message rows (no second copy, no validity flip) — and every original call answered the same, but for
+    original deliveries of an event number inserted before them (`runA` / `runB` leave those out: the inserted call may have
+    left a Failed record, so the later one may answer `Unprocessable` instead of e.g. `Err(Message)`). -/
+theorem redelivery_invisible_multi (c : Cl) (hi : IInv c) (ops : List IOp) (hok : okIns [] c ops = true) :
+    proj (runB [] c ops).1 = proj (runA [] c ops).1 ∧ (runB [] c ops).2 = (runA [] c ops).2 ∧
+    (runB [] c ops).1.msgs = (runA [] c ops).1.msgs := by
+  obtain ⟨h1, h2⟩ := ins_sim ops (Eqv.refl [] [] [] c) hi hi hok
+  exact ⟨h1.proj, h2, h1.msgs⟩
+
+/-- **redelivery_invisible_partial** — C07's history theorem in plain terms: after any prefix `pre`, `deliver e` inserted `k`
+    times (any `k`), then any suffix `suf`.  `H`: at the place of insertion `e` is `handled` and `known`, and every delivery of
+    event number `e.n` in the suffix is of a handled event (all three decidable on the ORIGINAL run `pre ++ suf`).  Then the two
+    runs end with the same projection, and every call of the suffix other than deliveries of event number `e.n` answered the
+    same (`resExcept`). -/
+theorem redelivery_invisible_partial (c : Cl) (hi : IInv c) (pre suf : List COp) (e : Ev) (nx k : Nat)
+    (hh : handled (hist c pre).1 e = true) (hk : known (hist c pre).1 e = true)
+    (hl : laterHandled e.n (hist c pre).1 suf = true) :
+    proj (hist c (pre ++ List.replicate k (.deliver e nx) ++ suf)).1 = proj (hist c (pre ++ suf)).1 ∧
+    resExcept e.n (hist c (pre ++ List.replicate k (.deliver e nx))).1 suf = resExcept e.n (hist c pre).1 suf := by
+  cases k with
+  | zero => simp
+  | succ k =>
+    have := insert_handled (hist c pre).1 (iinv_hist c pre hi) suf e nx k hh hk hl
+    simp only [hist_append, List.append_assoc]
+    exact this
+
+/-- … and when the suffix does not deliver that event number again, EVERY call of it answers the same -/
+theorem redelivery_invisible_nolater (c : Cl) (hi : IInv c) (pre suf : List COp) (e : Ev) (nx k : Nat)
+    (hh : handled (hist c pre).1 e = true) (hk : known (hist c pre).1 e = true) (hn : noLater e.n suf = true) :
+    proj (hist c (pre ++ List.replicate k (.deliver e nx) ++ suf)).1 = proj (hist c (pre ++ suf)).1 ∧
+    (hist (hist c (pre ++ List.replicate k (.deliver e nx))).1 suf).2 = (hist (hist c pre).1 suf).2 := by
+  have := redelivery_invisible_partial c hi pre suf e nx k hh hk (laterHandled_noLater _ _ _ hn)
+  rw [resExcept_noLater _ _ _ hn, resExcept_noLater _ _ _ hn] at this
+  exact this
+
+/-- one re-delivery keeps the event handled and known: that is why `k` is arbitrary -/
+theorem handled_stays (c : Cl) (hi : IInv c) (e : Ev) (nx : Nat) (hh : handled c e = true) (hk : known c e = true) :
+    Eqv [e.n] [] [] c (deliver c e nx).1 ∧ proj (deliver c e nx).1 = proj c := by
+  have h := ins_right (Eqv.refl [] [] [] c) hi e nx hh hk
+  exact ⟨h, h.proj⟩
+
+/-- the statement without `known` and without the condition on later deliveries of the same event number -/
+def redelivery_invisible_full : Prop :=
+  ∀ (c : Cl) (pre suf : List COp) (e : Ev) (nx : Nat), IInv c → handled (hist c pre).1 e = true →
+    proj (hist c (pre ++ [.deliver e nx] ++ suf)).1 = proj (hist c (pre ++ suf)).1
+
+/-- refuted: `handled` alone is satisfied by a commit the client has never seen and that is one epoch AHEAD (another epoch,
+    nothing to compare with).  Offering it early writes a Failed record, and when it arrives again in order it is refused
+    for ever: finding `handshake-before-predecessor-blocked` (C01).  It is not `known`, and its later delivery is not of a
+    handled event — both hypotheses of the theorem fail on it. -/
+def hC : Cl := initCl 2 false 5 [0, 1, 2] [0, 1] 1
+def hE1 : Ev := { n := 1, ts := 20, idnum := 7, cipher := 1, sender := 0, path := [], kind := .commit .selfUpdate [] }
+def hE2 : Ev := { n := 8, ts := 30, idnum := 8, cipher := 8, sender := 0, path := [1], kind := .commit .selfUpdate [] }
+
+theorem redelivery_invisible_full_false : ¬ redelivery_invisible_full := by
+  intro h
+  have := h hC [] [.deliver hE1 0, .deliver hE2 0] hE2 0 (iinv_init ..) (by decide)
+  revert this; decide
+
+example : handled hC hE2 = true ∧ known hC hE2 = false ∧ laterHandled hE2.n hC [.deliver hE1 0, .deliver hE2 0] = false := by decide
+
+/-- the statement WITH `handled` and `known` at the place of insertion but without the condition on later deliveries of the
+    same event number -/
+def redelivery_invisible_anysuffix : Prop :=
+  ∀ (c : Cl) (pre suf : List COp) (e : Ev) (nx : Nat), IInv c → handled (hist c pre).1 e = true → known (hist c pre).1 e = true →
+    proj (hist c (pre ++ [.deliver e nx] ++ suf)).1 = proj (hist c (pre ++ suf)).1
+
+/-- refuted: `laterHandled` is necessary.  The client stages a commit of its own (record ProcessedCommit, pending); a competitor
+    that ROTATES the nostr group id is applied first, so the own commit lost its epoch.  Its echo — still tagged with the old id —
+    is offered now: not found (`GroupNotFound`), nothing visible changes, the event is `handled` (not routed) and `known`; but the
+    record is rewritten as Failed.  Then a sibling of the rotation commit re-published under the NEW id (the mechanism of the open
+    finding retagged-commit-rollback) makes the client roll back — which restores the old id AND the pending commit — and is
+    refused.  Now the echo of the own commit is a FIRST delivery: the run without the early offer merges the pending commit, the
+    run with it is blocked by the Failed record for ever.  (An own commit that never took effect is not an "already handled
+    event" in the property's sense; the hypothesis `laterHandled` is what excludes it.) -/
+def nOwn : Ev := { n := 6, ts := 33, idnum := 6, cipher := 6, sender := 2, path := [], kind := .commit .selfUpdate [] }
+def nRot : Ev := { n := 10, ts := 20, idnum := 10, cipher := 10, sender := 0, path := [], kind := .commit (.setData { initData [0, 1] 1 with nid := 8 }) [] }
+def nSibRetag : Ev := { n := 11, ts := 10, idnum := 11, cipher := 11, sender := 1, path := [], kind := .commit .selfUpdate [], tag := 8 }
+def nPre : List COp := [.stage 6 33 6 .selfUpdate false, .deliver nRot 0]
+def nSuf : List COp := [.deliver nSibRetag 0, .deliver nOwn 0]
+
+theorem witness_later_delivery_not_handled :
+    (hist hC nPre).2 = [.ev nOwn, .commit] ∧ handled (hist hC nPre).1 nOwn = true ∧ known (hist hC nPre).1 nOwn = true ∧
+    (deliver (hist hC nPre).1 nOwn 0).2 = .err eGroupNotFound ∧ laterHandled nOwn.n (hist hC nPre).1 nSuf = false ∧
+    (hist (hist hC nPre).1 nSuf).2 = [.err eGroupNotFound, .commit] ∧ (hist hC (nPre ++ nSuf)).1.g.path = [6] ∧
+    (hist (hist hC (nPre ++ [.deliver nOwn 0])).1 nSuf).2 = [.err eGroupNotFound, .unprocessable] ∧
+    (hist hC (nPre ++ [.deliver nOwn 0] ++ nSuf)).1.g.path = [] ∧ (hist hC (nPre ++ [.deliver nOwn 0] ++ nSuf)).1.g.pending = some nOwn := by
+  decide
+
+theorem redelivery_invisible_anysuffix_false : ¬ redelivery_invisible_anysuffix := by
+  intro h
+  have := h hC nPre nSuf nOwn 0 (iinv_init ..) (by decide) (by decide)
+  revert this; decide
+
+/-- the open finding rewrapped-commit-rollback is NOT a re-delivery in the sense of the theorem: the same ciphertext under
+    another wrapper is another event number; the copy with the earlier timestamp is not `handled` (it wins the comparison),
+    the copy with the later one is `handled` but not `known` (a refused first offer: C06's theorem) -/
+def hCopyLate : Ev := { hE1 with n := 5, ts := 30, idnum := 3 }
+example : handled (deliver hC hCopyLate 0).1 hE1 = false ∧
+    handled (deliver hC hE1 0).1 hCopyLate = true ∧ known (deliver hC hE1 0).1 hCopyLate = false := by decide
+
+/-! ### non-vacuity: a race, a rollback, messages, an own echo, a queued proposal, an own commit — and a re-delivery of
+    every kind of handled event inserted, some of them twice, plus an ORIGINAL duplicate after an inserted one -/
+
+/-- member 2 (not an admin) of {0, 1, 2} -/
+def dC : Cl := initCl 2 false 5 [0, 1, 2] [0, 1] 1
+/-- A and its better competitor B (earlier timestamp), both on the creation state -/
+def dA : Ev := { n := 1, ts := 20, idnum := 7, cipher := 1, sender := 0, path := [], kind := .commit .selfUpdate [] }
+def dB : Ev := { n := 2, ts := 10, idnum := 9, cipher := 2, sender := 1, path := [], kind := .commit .selfUpdate [] }
+/-- a message of member 1 in the epoch after B -/
+def dM : Ev := { n := 3, ts := 30, idnum := 3, cipher := 3, sender := 1, path := [2], kind := .app 30 30 7 }
+/-- the echo of the client's own message (published by `send 4 …`) -/
+def dOwn : Ev := { n := 4, ts := 31, idnum := 4, cipher := 4, sender := 2, path := [2], kind := .app 40 31 8 }
+/-- member 0 asks to leave: queued at the non-admin 2 -/
+def dL : Ev := { n := 5, ts := 32, idnum := 5, cipher := 5, sender := 0, path := [2], kind := .leave }
+/-- the echo of the client's own self-update (staged by `stage 6 …`; it sweeps the queued leave) -/
+def dOwnC : Ev := { n := 6, ts := 33, idnum := 6, cipher := 6, sender := 2, path := [2], kind := .commit .selfUpdate [0] }
+
+def demo : List IOp :=
+  [.orig (.deliver dA 0), .orig (.deliver dB 0),            -- race: A applied, B wins, rollback
+   .ins dA 0, .ins dB 0, .ins dB 0,                          -- superseded commit (EpochInvalidated), applied commit (twice)
+   .orig (.deliver dM 0), .ins dM 0,                         -- stored message
+   .orig (.send 4 31 4 40 31 8), .orig (.deliver dOwn 0), .ins dOwn 0, .ins dOwn 0,   -- own message echo
+   .orig (.deliver dM 0),                                    -- an ORIGINAL duplicate after the inserted one
+   .orig (.deliver dL 0), .ins dL 0,                         -- queued proposal
+   .orig (.stage 6 33 6 .selfUpdate false), .orig (.deliver dOwnC 0), .ins dOwnC 0,   -- own commit echo
+   .ins dA 0, .ins dM 0, .orig (.deliver dB 0), .orig .merge]
+
+example : okIns [] dC demo = true := by decide
+/-- what the original run answers (the duplicates of the message and of B are left out: their numbers were inserted before) -/
+example : (runA [] dC demo).2 = [.commit, .commit, .app 30, .ev dOwn, .app 40, .pending, .ev dOwnC, .commit, .ok] ∧
+    (runA [] dC demo).1.g.path = [2, 6] ∧ (runA [] dC demo).1.msgs.length = 2 := by decide
+example : proj (runB [] dC demo).1 = proj (runA [] dC demo).1 ∧ (runB [] dC demo).2 = (runA [] dC demo).2 :=
+  ⟨(redelivery_invisible_multi dC (iinv_init ..) demo (by decide)).1, (redelivery_invisible_multi dC (iinv_init ..) demo (by decide)).2.1⟩
+/-- the inserted calls DID touch the invisible parts: the record of the queued proposal is Failed in the run with the insertions -/
+example : (getRec (runA [] dC demo).1 5).map (·.state) = some 1 ∧ (getRec (runB [] dC demo).1 5).map (·.state) = some 3 := by decide
+
+/-- the exporter-secret cache: `merge_pending_commit` moves to the next epoch without exporting its secret; a re-delivery inserted
+    right after it exports it early — the tables differ until the next call that needs the secret, nothing else does -/
+def demo2a : List IOp := [.orig (.deliver dA 0), .orig (.stage 6 33 6 .selfUpdate false), .orig .merge, .ins dA 0]
+def dM2 : Ev := { n := 7, ts := 40, idnum := 7, cipher := 7, sender := 1, path := [1, 6], kind := .app 70 40 9 }
+example : okIns [] dC (demo2a ++ [.orig (.deliver dM2 0)]) = true ∧
+    (runA [] dC demo2a).1.g.secrets = [(1, []), (2, [1])] ∧ (runB [] dC demo2a).1.g.secrets = [(1, []), (2, [1]), (3, [1, 6])] ∧
+    (runB [] dC (demo2a ++ [.orig (.deliver dM2 0)])).1.g.secrets = (runA [] dC (demo2a ++ [.orig (.deliver dM2 0)])).1.g.secrets ∧
+    (runA [] dC (demo2a ++ [.orig (.deliver dM2 0)])).2 = [.commit, .ev { dOwnC with path := [1], kind := .commit .selfUpdate [] }, .ok, .app 70] := by decide
+
+/-- the echo of the client's OWN proposal (`leave_group` records it ProcessedCommit; the echo answers `commit` through
+    `return_own_commit`), and an event that is no longer found under its `h` tag after the nostr group id was rotated
+    (`GroupNotFound`): both are `handled` and `known`, inserted twice each -/
+def dOwnL : Ev := { n := 9, ts := 50, idnum := 9, cipher := 9, sender := 2, path := [1], kind := .leave }
+def dRot : Ev := { n := 10, ts := 60, idnum := 10, cipher := 10, sender := 0, path := [1], kind := .commit (.setData { initData [0, 1] 1 with nid := 8 }) [] }
+def demo3 : List IOp :=
+  [.orig (.deliver dA 0), .orig (.leave 9 50 9), .orig (.deliver dOwnL 0), .ins dOwnL 0, .ins dOwnL 0,
+   .orig (.deliver dRot 0), .ins dA 0, .ins dA 0, .ins dOwnL 0, .orig (.deliver dOwnL 0)]
+example : okIns [] dC demo3 = true ∧
+    (runA [] dC demo3).2 = [.commit, .ev dOwnL, .commit, .commit] ∧ (runA [] dC demo3).1.g.recNid = 8 ∧
+    (hist (runA [] dC demo3).1 [.deliver dA 0]).2 = [.err eGroupNotFound] := by decide
+example : proj (runB [] dC demo3).1 = proj (runA [] dC demo3).1 :=
+  (redelivery_invisible_multi dC (iinv_init ..) demo3 (by decide)).1
+
+/-- the plain form: the stored message re-delivered three times after the race, then the rest of the run incl. a duplicate -/
+example : handled (hist dC [.deliver dA 0, .deliver dB 0, .deliver dM 0]).1 dM = true ∧
+    known (hist dC [.deliver dA 0, .deliver dB 0, .deliver dM 0]).1 dM = true ∧
+    laterHandled dM.n (hist dC [.deliver dA 0, .deliver dB 0, .deliver dM 0]).1 [.send 4 31 4 40 31 8, .deliver dM 0, .deliver dL 0] = true := by decide
+
+end Histories
 
 end MdkVerif.Props.C07
